@@ -142,7 +142,7 @@ func (s *JSchema) AddType(name string, sc schema.Schema) (err error) {
 			return errs.ErrLoadError.F(err)
 		}
 
-		s.Inner.AddNamedType(name, typ.Inner, s.File, 0)
+		s.Inner.AddNamedType(name, typ.Inner, typ.File, 0)
 		s.UserTypeCollection[name] = typ
 	case *regex.RSchema:
 		typSc, err := FromRSchema(typ)
@@ -150,7 +150,7 @@ func (s *JSchema) AddType(name string, sc schema.Schema) (err error) {
 			return err
 		}
 
-		s.Inner.AddNamedType(name, typSc.Inner, s.File, 0)
+		s.Inner.AddNamedType(name, typSc.Inner, typ.File, 0)
 		s.UserTypeCollection[name] = typ
 	default:
 		return errs.ErrRuntimeFailure.F()
